@@ -180,7 +180,20 @@ def r171(ctx, rep):
             undef[node.targets[0].id] = node.value
     for a, b, kind in (("_a_ub", "_b_ub", "inequality"), ("_a_eq", "_b_eq", "equality")):
         desc = f"{f.local}: undefined {kind} rows dropped from both arrays"
-        if a in filt and b in filt and filt[a][0] == filt[b][0] and filt[a][0].startswith("~"):
+        if a in filt and b in filt and filt[a][0] == filt[b][0] and not (filt[a][0].startswith("~") and filt[a][0][1:] in undef):
+            # the mask is written in place: ~np.isnan(b) / np.isfinite(b) / ~(np.isnan(b) | np.isinf(b))
+            rhs = "b_ub" if kind == "inequality" else "b_eq"
+            txt = filt[a][0].replace(" ", "")
+            for alt in ["self._" + rhs, "self." + rhs] + [nm for nm, fl in local_field.items() if fl == "_" + rhs]:
+                txt = txt.replace("(" + alt + ")", "(B)")
+            ok_txt = ("np.isfinite(B)", "~(np.isnan(B)|np.isinf(B))", "~(np.isinf(B)|np.isnan(B))") if kind == "inequality" else ("~np.isnan(B)", "~(np.isnan(B))")
+            if txt in ok_txt:
+                rep.ok("R17.1", desc + f" with mask {filt[a][0][:50]}")
+            else:
+                rep.bad("R17.1", desc)
+                rep.finding("R17.1", f, f"mask {filt[a][0][:80]}", filt[a][1].lineno,
+                            f"undefined {kind} right-hand sides are not detected as documented ({'NaN or infinite' if kind == 'inequality' else 'NaN'} entries of {rhs})")
+        elif a in filt and b in filt and filt[a][0] == filt[b][0] and filt[a][0].startswith("~"):
             name = filt[a][0][1:]
             v = undef.get(name)
             txt = norm(v).replace(" ", "") if v is not None else ""
